@@ -222,7 +222,7 @@ def generate(ctx):
                 for _ in range(rng.randint(1, 4)):
                     ty = rng.choice(list(gen.TYPES))
                     nm = rng.choice(["new1", "new2"] + [n for n, _ in inpc["schema"]])
-                    how = rng.choice(["with_flat_field", "with_list_field", "without_field", "frame_setitem", "frame_retype", "frame_retype", "nest_getitem", "query", "setitem_el", "query", "setitem_el"])
+                    how = rng.choice(["with_flat_field", "with_list_field", "without_field", "frame_setitem", "frame_retype", "frame_retype", "nest_getitem", "query", "setitem_el", "query", "setitem_el", "query", "setitem_el"])
                     cur = nf["n"]
                     names_now = list(cur.nest.fields)
                     if how == "with_flat_field":
@@ -248,6 +248,9 @@ def generate(ctx):
                         # in place through the accessor: a constant / an array whose natural Arrow type is NOT the field's
                         # (an int for a double field): the field keeps its type, and what the series, its array and the storage declare agree
                         dbl = [f.name for f in cur.array.chunked_array.type if str(f.type.value_type) == "double"]
+                        if not dbl and len(cur.array.chunked_array.type) < 4:
+                            cur = cur.nest.with_flat_field("zdbl", pa.array([0.5] * sum(lens), type=pa.float64()))
+                            dbl = ["zdbl"]
                         if dbl:
                             fld = rng.choice(dbl)
                             cur.nest[fld] = 1 if how == "query" else np.arange(sum(lens), dtype=np.int64)
